@@ -809,7 +809,9 @@ func (e Engine) run(ctx *kit.Ctx, sc *kit.Scenario[Config, Op], res *kit.Result,
 								// judged in a C04 run
 								res.Ambiguous = true
 								ctx.Logf("interest corrupted; log ends here")
-								ctx.Log = nil
+								if ctx != nil {
+									ctx.Log = nil
+								}
 							}
 						case "dup":
 							seq++
